@@ -17,8 +17,9 @@ control flow of
   - `graph_id = header_lines[0]` if there is one, else `str(id(graph_raw))` (`id = none`);
   - blank lines are skipped; no line left: `ValueError` (`missingCount`);
   - `int(line.strip())` failing: `ValueError` (`badCount`);
-  - **`n == 0`: return immediately** — empty graph, constraints *not* validated, the rest of the
-    block not looked at, no `n`/`m`/`w` keys;
+  - `n == 0` (after fix 1264962): `ValueError` if any constraint was collected
+    (`zeroWithConstraints`), else `ValueError` if any later line of the block is neither blank nor a
+    `#` line (`zeroWithData`), else return the empty graph with `n = m = w = 0`;
   - every remaining line that is not blank and not a `#` line must split into exactly three
     tokens (`badEdgeFormat`) whose third converts with `float()` (`badWeight`);
     `G.add_edge(u, v, flow=w)` (networkx: nodes appended on first sight, an existing edge keeps its
@@ -27,13 +28,10 @@ control flow of
   - `n`, `m` := number of nodes / edges of the graph built (the vertex-count line is *not* used);
   - `w := stDiGraph(G).get_width()`: the constructor raises `ValueError` when the graph has no
     node without in-edges or no node without out-edges (`noSourceOrSink`); the width value itself
-    is an oracle (`Oracles.width`).  (This is the *documented* test.  The code evaluates it as
-    `len(list(self.out_edges(self.source))) == 0`, and when no source exists `self.source` is not
-    a node, so networkx iterates over the *characters* of `"source_<id>"`: a graph without source
-    is accepted when one of those characters names a node with an out-edge.  That defect of
-    `AbstractSourceSinkGraph` lies outside property C20 — its quantifier demands a source and a
-    sink — and is reported by a separate oracle of `harness/props/c20.py`; no theorem of
-    `FP/Props/C20.lean` relies on `noSourceOrSink` being raised.)
+    is an oracle (`Oracles.width`).  (Before fix 49fd43a the code evaluated this test through
+    `out_edges(self.source)` on a string that was not a node, which iterates over its characters;
+    `harness/props/c20.py` keeps a separate oracle for it.  No theorem of `FP/Props/C20.lean`
+    relies on `noSourceOrSink` being raised.)
 * `read_graphs(filename)`: lines before the first `#` line are skipped; a block is a maximal run
   of `#` lines followed by the maximal run of non-`#` lines (`splitBlocks`); blocks are parsed in
   order, the first exception propagates (`readBlocks`).
@@ -65,9 +63,13 @@ def Line.isBlank {S} : Line S → Bool
   | .blank => true
   | _ => false
 
+/-- `line.strip() and not line.lstrip().startswith('#')` -/
+def Line.isData {S} (l : Line S) : Bool := !l.isBlank && !l.isHash
+
 /-- which statement raised; every one of them is a python `ValueError` -/
 inductive PErr where
-  | missingCount | badCount | badEdgeFormat | badWeight | constraintEdgeMissing | noSourceOrSink
+  | missingCount | badCount | zeroWithConstraints | zeroWithData
+  | badEdgeFormat | badWeight | constraintEdgeMissing | noSourceOrSink
   deriving DecidableEq, Repr
 
 deriving instance DecidableEq for Except
@@ -77,6 +79,8 @@ structure Oracles (S W Wd : Type) where
   parseInt : S → Option Int
   parseFloat : S → Option W
   width : List S → List (S × S × W) → Wd
+  /-- the literal `0` stored as `w` of a zero-vertex block -/
+  zeroWidth : Wd
 
 section
 variable {S W Wd : Type} [DecidableEq S]
@@ -149,7 +153,7 @@ structure PGraph (S W Wd : Type) where
   /-- `none`: `str(id(graph_raw))` (no header line) -/
   id : Option S
   constraints : List (List (S × S))
-  /-- `G.graph["n"]`, `["m"]`, `["w"]`; absent after the zero-vertex early return -/
+  /-- `G.graph["n"]`, `["m"]`, `["w"]` -/
   n : Option Nat
   m : Option Nat
   w : Option Wd
@@ -170,8 +174,11 @@ def readGraph (o : Oracles S W Wd) (ls : List (Line S)) : Except PErr (PGraph S 
     | none => .error .badCount
     | some n =>
       if n = 0 then
-        .ok { nodes := [], edges := [], id := st.headers.head?, constraints := st.cons,
-              n := none, m := none, w := none }
+        if !st.cons.isEmpty then .error .zeroWithConstraints
+        else if body.any Line.isData then .error .zeroWithData
+        else
+          .ok { nodes := [], edges := [], id := st.headers.head?, constraints := st.cons,
+                n := some 0, m := some 0, w := some o.zeroWidth }
       else
         match parseEdges o body {} with
         | .error e => .error e
